@@ -143,6 +143,44 @@ def guards_on_path(node, ancestors, var):
     return gs[0] if len(gs) == 1 else "GOther"
 
 
+
+def leaves(stmt):
+    """leaf statements of a body; IfStmt conditions are yielded as ('cond', node)"""
+    k = stmt.get("kind")
+    if k == "CompoundStmt":
+        for c in kids(stmt):
+            yield from leaves(c)
+    elif k == "IfStmt":
+        ks = kids(stmt)
+        yield ("cond", ks[0])
+        for c in ks[1:]:
+            yield from leaves(c)
+    elif k == "NullStmt":
+        return
+    else:
+        yield ("stmt", stmt)
+
+
+def call_names(n):
+    return [callee_name(x) for x in walk(n) if is_call(x)]
+
+
+def ctor_stmt_list(body, hit, allowed):
+    """COMPLETE list of what the constructor body does: the recognised limit installation (the leaf containing
+    the hit node, calling nothing but the allowed functions) is CInstall, everything else CUnknown"""
+    out = []
+    for kind, s in leaves(body):
+        if kind == "cond":
+            if call_names(s):
+                out.append("CUnknown")
+            continue
+        if hit is not None and any(x is hit for x in walk(s)) and all(c in allowed for c in call_names(s)):
+            out.append("CInstall")
+        else:
+            out.append("CUnknown")
+    return out
+
+
 def body_of(fn):
     b = [c for c in kids(fn) if c.get("kind") == "CompoundStmt"]
     return b[0] if b else None
@@ -188,6 +226,7 @@ def init_cpp_facts(docs, backend):
             out["guard"] = guards_on_path(node, anc, pn)
             args = kids(node)[1:] if is_call(node) else [a for c in kids(node) for a in kids(c)]
             out["value_is_n"] = bool(args) and refname(args[-1]) == pn
+        out["stmts"] = ctor_stmt_list(body, hits[0][0] if len(hits) == 1 else None, ("operator=", "make_unique"))
     elif backend == "OMP":
         hits = find_paths(body, lambda x: is_call(x) and callee_name(x) == "omp_set_num_threads")
         if len(hits) != 1:
@@ -196,6 +235,7 @@ def init_cpp_facts(docs, backend):
             node, anc = hits[0]
             out["guard"] = guards_on_path(node, anc, pn)
             out["value_is_n"] = refname(kids(node)[1]) == pn
+        out["stmts"] = ctor_stmt_list(body, hits[0][0] if len(hits) == 1 else None, ("omp_set_num_threads",))
     elif backend == "INTERNAL":
         hits = find_paths(body, lambda x: is_call(x) and callee_name(x) == "initTaskSystemInternal")
         if len(hits) != 1:
@@ -216,9 +256,11 @@ def init_cpp_facts(docs, backend):
                     out["arg"] = "IArgOther"
             else:
                 out["arg"] = "IArgOther"
+        out["stmts"] = ctor_stmt_list(body, hits[0][0] if len(hits) == 1 else None, ("initTaskSystemInternal",))
     else:
         # Debug: the constructor must not do anything with the parameter
         out["guard"] = "GTrue" if not [x for x in walk(body) if is_call(x)] else "GOther"
+        out["stmts"] = ctor_stmt_list(body, None, ())
     # num_threads()
     nt = [c for c in kids(rec) if c.get("kind") == "CXXMethodDecl" and c.get("name") == "num_threads" and body_of(c) is not None]
     rep = "ROther"
@@ -301,6 +343,7 @@ def init_cpp_facts(docs, backend):
     ps = [c.get("name") for c in kids(fn) if c.get("kind") == "ParmVarDecl"]
     pn2 = ps[0]
     ist = []
+    flush = ps[1] if len(ps) > 1 else None
     for st in kids(body_of(fn)):
         uses_h = mentions(st, "g_tasking_handle")
         if assigns_to(st, pn2):
@@ -308,6 +351,14 @@ def init_cpp_facts(docs, backend):
         if [x for x in walk(st) if x.get("kind") == "ReturnStmt"]:
             ist.append("IReturn")
         if not uses_h:
+            # the only other thing allowed: if (flushDenormals) { MXCSR macros }  (empty macros without SIMD)
+            s0 = strip(st)
+            harmless = s0.get("kind") == "NullStmt"
+            if s0.get("kind") == "IfStmt" and flush and refname(kids(s0)[0]) == flush and not mentions(st, pn2) and \
+                    all(c in ("_mm_setcsr", "_mm_getcsr") for c in call_names(st)):
+                harmless = True
+            if not harmless and not assigns_to(st, pn2):
+                ist.append("IUnknownStmt")
             continue
         s = strip(st)
         ok = False
@@ -355,8 +406,7 @@ def tasksys_facts(docs):
                 len(kids(s)) == 2 and refname(kids(s)[1]) == pn:
             steps.append("TsInit")
             continue
-        if mentions(st, "g_ts") or mentions(st, pn):
-            steps.append("TsOther")
+        steps.append("TsOther")       # anything else: fail closed
     q = find_fn(docs, "FunctionDecl", "numThreadsTaskSystemInternal")
     qok = False
     if q is not None:
@@ -464,6 +514,7 @@ Definition facts_src : facts := {|
   f_omp_guard := %s;  f_omp_value_is_n := %s;
   f_int_call_guard := %s;  f_int_arg := %s;
   f_ctor_param_unmodified := %s;
+  f_ctor_stmts_tbb := [%s];  f_ctor_stmts_omp := [%s];  f_ctor_stmts_int := [%s];  f_ctor_stmts_dbg := [%s];
   f_ts_steps := [%s];
   f_rep_tbb := %s;  f_rep_omp := %s;  f_rep_int := %s;  f_rep_dbg := %s;
   f_int_query_is_numthreads := %s;
@@ -472,16 +523,18 @@ Definition facts_src : facts := {|
   f_worker_lo := %s;  f_worker_op := %s
 |}.
 """ % (per["TBB"]["guard"], bl(per["TBB"]["value_is_n"]), per["OMP"]["guard"], bl(per["OMP"]["value_is_n"]),
-       per["INTERNAL"]["guard"], per["INTERNAL"]["arg"], bl(unmod), "; ".join(steps),
+       per["INTERNAL"]["guard"], per["INTERNAL"]["arg"], bl(unmod),
+       "; ".join(per["TBB"]["stmts"]), "; ".join(per["OMP"]["stmts"]), "; ".join(per["INTERNAL"]["stmts"]), "; ".join(per["DEBUG"]["stmts"]),
+       "; ".join(steps),
        per["TBB"]["rep"], per["OMP"]["rep"], per["INTERNAL"]["rep"], per["DEBUG"]["rep"], bl(qok and sok),
        nohandle, bl(withhandle), "; ".join(init), coq_z(lo), op)
     old = open(out).read() if os.path.exists(out) else None
     if old != txt:
         open(out, "w").write(txt)
-    print("facts: tbb=%s/%s omp=%s/%s internal=%s %s ts=%s reps=%s,%s,%s,%s query=%s nohandle=%s with=%s init=%s loop=%s,%s unmod=%s"
+    print("facts: tbb=%s/%s omp=%s/%s internal=%s %s ts=%s reps=%s,%s,%s,%s query=%s nohandle=%s with=%s init=%s loop=%s,%s unmod=%s ctor_stmts=%s"
           % (per["TBB"]["guard"], per["TBB"]["value_is_n"], per["OMP"]["guard"], per["OMP"]["value_is_n"], per["INTERNAL"]["guard"],
              per["INTERNAL"]["arg"], steps, per["TBB"]["rep"], per["OMP"]["rep"], per["INTERNAL"]["rep"], per["DEBUG"]["rep"],
-             qok and sok, nohandle, withhandle, init, lo, op, unmod))
+             qok and sok, nohandle, withhandle, init, lo, op, unmod, {b: per[b]["stmts"] for b in per}))
 
 
 if __name__ == "__main__":
